@@ -442,7 +442,7 @@ func servePipe(s *vgirpc.Server, body []byte, viaIOPipe bool) (out []byte, pan s
 	select {
 	case p := <-done:
 		return <-outCh, p, false
-	case <-time.After(30 * time.Second):
+	case <-time.After(120 * time.Second):
 		return nil, "", true
 	}
 }
@@ -1532,6 +1532,13 @@ func evaluate(r *mon.Run, c Case, o mon.Outcome) {
 		site := wb.AllocSite(o.Detail)
 		w["stderr"] = o.Detail
 		r.Count("child_died."+kind+"."+site, 1)
+		if kind != "oom" {
+			// rare and always worth a witness file of its own, whatever the cap on printed violations
+			path := fmt.Sprintf("%s/replays/C03-crash-%s-seed%d-%s.json", r.RootDir(), kind, r.Seed(), mon.Hash(gen.B64(body)))
+			if data, err := json.MarshalIndent(map[string]any{"property": "C03", "signature": fmt.Sprintf("%s:crash:%s:%s:%s", tfam, kind, sigTail, site), "witness": w}, "", " "); err == nil {
+				_ = os.WriteFile(path, data, 0o644)
+			}
+		}
 		if d := os.Getenv("VERIF_DEBUG_DUMP"); d != "" && strings.Contains(site, d) {
 			fmt.Printf("DUMP %s\n%s\n%s\n", where, gen.JSON(c.Derive), o.Detail)
 		}
@@ -1550,7 +1557,7 @@ func evaluate(r *mon.Run, c Case, o mon.Outcome) {
 		if data, err := json.MarshalIndent(map[string]any{"property": "C03", "signature": "pipe:hang", "witness": w}, "", " "); err == nil {
 			_ = os.WriteFile(path, data, 0o644)
 		}
-		r.Inconclusive("Serve had not returned 30 s after the client closed its end (" + path + "): " + where)
+		r.Inconclusive("Serve had not returned 120 s after the client closed its end (" + path + "): " + where)
 		return
 	}
 	if out.Panic != "" {
